@@ -250,6 +250,36 @@ func genC12(r *vc.Run) {
 			}
 			role := argRole(in.op, p)
 			cands := map[string]*big.Int{"+1": add(orig, 1), "-1": add(orig, -1), "zero": big.NewInt(0), "random": g.below(add(new(big.Int).Abs(orig), 7))}
+			// negation in each group the value could live in: q - v, 2q - v (scalars), p - v (coordinates: the negated point), M - v for
+			// every large modulus among the statement arguments (N, NTilde, ...): an x-only or square-only comparison accepts these
+			proofArgs := map[string][]int{"schnorr_verify": {3, 4}, "schnorrv_verify": {4, 5, 6}, "alice_verify": {6}, "bob_verify": {8}, "bobwc_verify": {8, 9},
+				"mod_verify": {2}, "fac_verify": {6}, "dln_verify": {3, 4}, "pai_verify": {3}, "vss_verify": {3}}[in.op]
+			isProof := false
+			for _, pa := range proofArgs {
+				isProof = isProof || p[0] == pa
+			}
+			// the negations apply to proof components only (the verifier's own ring-Pedersen parameters are not part of any transcript, by
+			// the protocol's design); the x_i of the modulus proof are fourth roots, and any of the four roots is the same response
+			if in.op == "mod_verify" && len(p) == 2 && p[1] >= 1 && p[1] <= 80 {
+				isProof = false
+			}
+			if cn, ok := in.args[0].(val.Atom); ok && isProof {
+				if ec := curveByName(string(cn)); ec != nil {
+					cq, cp := ec.Params().N, ec.Params().P
+					if orig.Sign() > 0 && orig.Cmp(cq) < 0 {
+						cands["neg-q"] = new(big.Int).Sub(cq, orig)
+						cands["neg-2q"] = new(big.Int).Sub(new(big.Int).Lsh(cq, 1), orig)
+					}
+					if orig.Sign() > 0 && orig.Cmp(cp) < 0 {
+						cands["neg-p"] = new(big.Int).Sub(cp, orig)
+					}
+				}
+			}
+			for ai, a := range in.args {
+				if m, ok := a.(val.Int); ok && isProof && m.X != nil && m.X.BitLen() > 500 && orig.Sign() > 0 && orig.Cmp(m.X) < 0 && (len(p) != 1 || p[0] != ai) {
+					cands[fmt.Sprintf("neg-arg%d", ai)] = new(big.Int).Sub(m.X, orig)
+				}
+			}
 			// neighbour swap inside a list
 			if len(p) >= 2 {
 				if nb := leafAt(in.args, append(append(leafPath{}, p[:len(p)-1]...), p[len(p)-1]+1)); nb != nil {
